@@ -36,6 +36,7 @@ import (
 	"sort"
 	"strings"
 	"sync"
+	"sync/atomic"
 	"time"
 
 	simchannel "perun.network/go-perun/backend/sim/channel"
@@ -69,6 +70,8 @@ type atx struct {
 }
 
 type event struct {
+	Burst  int // > 0: part of slow-reader segment number Burst; Gate is the channel whose client pauses
+	Gate   int
 	K      int
 	Ch     int
 	Parent int
@@ -175,27 +178,94 @@ func (o output) term() string {
 type regCall struct {
 	req  channel.AdjudicatorReq
 	subs []channel.SignedState
+	tag  int
 }
 
+type handItem struct {
+	ae  channel.AdjudicatorEvent
+	tag int
+}
+
+// scriptSub is the scripted adjudicator subscription of one channel. Events are handed to the watcher
+// through Next(); the harness knows that every handed event has been handled completely when the handler
+// goroutine has called Next() once more than events were handed (counters, no tokens that could be lost).
 type scriptSub struct {
-	ev     chan channel.AdjudicatorEvent
-	idle   chan struct{}
-	closed chan struct{}
-	once   sync.Once
+	ev      chan handItem
+	closed  chan struct{}
+	once    sync.Once
+	changed chan struct{} // signalled (capacity 1) on every Next call
+	mu      sync.Mutex
+	nexts   int // Next calls so far
+	handed  int // events handed (or being handed) so far
+	cur     int // tag of the event the handler took last
 }
 
-// Next signals the harness that the previous event (if any) has been handled completely.
+func newScriptSub() *scriptSub {
+	return &scriptSub{ev: make(chan handItem), closed: make(chan struct{}), changed: make(chan struct{}, 1), cur: -1}
+}
+
+// Next tells the harness that the previous event (if any) has been handled completely.
 func (s *scriptSub) Next() channel.AdjudicatorEvent {
+	s.mu.Lock()
+	s.nexts++
+	s.mu.Unlock()
 	select {
-	case s.idle <- struct{}{}:
+	case s.changed <- struct{}{}:
 	default:
 	}
 	select {
-	case e := <-s.ev:
-		return e
+	case it := <-s.ev:
+		s.mu.Lock()
+		s.cur = it.tag
+		s.mu.Unlock()
+		return it.ae
 	case <-s.closed:
 		return nil
 	}
+}
+
+// isIdle: the handler waits in Next for an event that has not been handed yet.
+func (s *scriptSub) isIdle() bool {
+	s.mu.Lock()
+	defer s.mu.Unlock()
+	return s.nexts > s.handed
+}
+
+func (s *scriptSub) curTag() int {
+	s.mu.Lock()
+	defer s.mu.Unlock()
+	return s.cur
+}
+
+// hand gives one event to the watcher (blocks while the handler is busy with the previous one).
+func (s *scriptSub) hand(ae channel.AdjudicatorEvent, tag int) bool {
+	s.mu.Lock()
+	s.handed++
+	s.mu.Unlock()
+	t := time.NewTimer(stuckAfter)
+	defer t.Stop()
+	select {
+	case s.ev <- handItem{ae, tag}:
+		return true
+	case <-s.closed:
+		return false
+	case <-t.C:
+		return false
+	}
+}
+
+// awaitIdle waits (on the Next signal, not on the clock) until every handed event has been handled.
+func (s *scriptSub) awaitIdle() bool {
+	t := time.NewTimer(stuckAfter)
+	defer t.Stop()
+	for !s.isIdle() {
+		select {
+		case <-s.changed:
+		case <-t.C:
+			return s.isIdle()
+		}
+	}
+	return true
 }
 
 func (s *scriptSub) Err() error { return nil }
@@ -210,10 +280,14 @@ type scriptRS struct {
 	fail  bool
 	calls []regCall
 	last  map[channel.ID]*scriptSub
+	// while a burst with registered events is fed to one channel, every Register call comes from that
+	// channel's handler: it is tagged with the index of the event being handled
+	burst  *scriptSub
+	bcalls []regCall
 }
 
 func (r *scriptRS) Subscribe(_ context.Context, id channel.ID) (channel.AdjudicatorSubscription, error) {
-	s := &scriptSub{ev: make(chan channel.AdjudicatorEvent), idle: make(chan struct{}, 8), closed: make(chan struct{})}
+	s := newScriptSub()
 	r.mu.Lock()
 	r.last[id] = s
 	r.mu.Unlock()
@@ -225,7 +299,11 @@ var errScripted = errors.New("scripted register failure")
 func (r *scriptRS) Register(_ context.Context, req channel.AdjudicatorReq, subs []channel.SignedState) error {
 	r.mu.Lock()
 	defer r.mu.Unlock()
-	r.calls = append(r.calls, regCall{req, append([]channel.SignedState(nil), subs...)})
+	if r.burst != nil {
+		r.bcalls = append(r.bcalls, regCall{req, append([]channel.SignedState(nil), subs...), r.burst.curTag()})
+	} else {
+		r.calls = append(r.calls, regCall{req, append([]channel.SignedState(nil), subs...), -1})
+	}
 	if r.fail {
 		return errScripted
 	}
@@ -274,7 +352,8 @@ type world struct {
 	adj    []watcher.AdjudicatorSub
 	sub    []*scriptSub
 	stuck  string
-	settle bool // wait after every Publish until the states handler has taken the transaction
+	gated  []bool // channels whose client does not read its event stream at the moment
+	settle bool   // wait after every Publish until the states handler has taken the transaction
 }
 
 func newWorld(r *rand.Rand, n int) *world {
@@ -297,6 +376,7 @@ func newWorld(r *rand.Rand, n int) *world {
 	w.pubs = make([]watcher.StatesPub, n)
 	w.adj = make([]watcher.AdjudicatorSub, n)
 	w.sub = make([]*scriptSub, n)
+	w.gated = make([]bool, n)
 	return w
 }
 
@@ -390,13 +470,63 @@ func startRes(err error) int {
 }
 
 func (w *world) waitIdle(s *scriptSub, what string) bool {
-	select {
-	case <-s.idle:
+	if s.awaitIdle() {
 		return true
-	case <-time.After(stuckAfter):
-		w.stuck = what
-		return false
 	}
+	w.stuck = what
+	return false
+}
+
+func (w *world) mkEvent(e event) channel.AdjudicatorEvent {
+	id := w.ids[e.Ch]
+	switch e.K {
+	case evRegistered:
+		// the state inside the event is NOT what the watcher must use: it carries a token no
+		// published transaction has.
+		return channel.NewRegisteredEvent(id, &channel.ElapsedTimeout{}, e.V, nil, nil)
+	case evProgressed:
+		return channel.NewProgressedEvent(id, &channel.ElapsedTimeout{}, &channel.State{ID: id, Version: e.V}, 0)
+	default:
+		return channel.NewConcludedEvent(id, &channel.ElapsedTimeout{}, e.V)
+	}
+}
+
+func (w *world) relayOut(ch int, ae channel.AdjudicatorEvent) output {
+	o := output{Kind: oRelay, Ch: ch, V: ae.Version()}
+	switch ae.(type) {
+	case *channel.RegisteredEvent:
+		o.EK = evRegistered
+	case *channel.ProgressedEvent:
+		o.EK = evProgressed
+	default:
+		o.EK = evConcluded
+	}
+	if ae.ID() != w.ids[ch] {
+		o.Ch = junkID
+	}
+	return o
+}
+
+func (w *world) callOut(c regCall) output {
+	o := output{Kind: oRegister}
+	o.P, o.Tx = w.abstract(c.req.Params, c.req.Tx.State, c.req.Tx.Sigs)
+	if c.req.Secondary {
+		o.P = junkID
+	}
+	for i, s := range c.subs {
+		var ss substate
+		if s.State == nil && s.Params == nil && s.Sigs == nil {
+			ss.ID = junkID
+			if i < len(o.Tx.Locked) {
+				ss.ID = o.Tx.Locked[i]
+			}
+		} else {
+			ss.Has = true
+			ss.ID, ss.Tx = w.abstract(s.Params, s.State, s.Sigs)
+		}
+		o.Subs = append(o.Subs, ss)
+	}
+	return o
 }
 
 func (w *world) stop(ch int) (res int) {
@@ -458,21 +588,7 @@ func (w *world) exec(e event) []output {
 		if s == nil {
 			break
 		}
-		var ae channel.AdjudicatorEvent
-		id := w.ids[e.Ch]
-		switch e.K {
-		case evRegistered:
-			// the state inside the event is NOT what the watcher must use: it carries a token no
-			// published transaction has.
-			ae = channel.NewRegisteredEvent(id, &channel.ElapsedTimeout{}, e.V, nil, nil)
-		case evProgressed:
-			ae = channel.NewProgressedEvent(id, &channel.ElapsedTimeout{}, &channel.State{ID: id, Version: e.V}, 0)
-		default:
-			ae = channel.NewConcludedEvent(id, &channel.ElapsedTimeout{}, e.V)
-		}
-		select {
-		case s.ev <- ae:
-		case <-time.After(stuckAfter):
+		if !s.hand(w.mkEvent(e), -1) {
 			w.stuck = fmt.Sprintf("event for channel %d not taken", e.Ch)
 			return nil
 		}
@@ -514,28 +630,10 @@ func (w *world) exec(e event) []output {
 	}
 	var pre []output
 	for _, c := range w.rs.takeCalls() {
-		o := output{Kind: oRegister}
-		o.P, o.Tx = w.abstract(c.req.Params, c.req.Tx.State, c.req.Tx.Sigs)
-		if c.req.Secondary {
-			o.P = junkID
-		}
-		for i, s := range c.subs {
-			var ss substate
-			if s.State == nil && s.Params == nil && s.Sigs == nil {
-				ss.ID = junkID
-				if i < len(o.Tx.Locked) {
-					ss.ID = o.Tx.Locked[i]
-				}
-			} else {
-				ss.Has = true
-				ss.ID, ss.Tx = w.abstract(s.Params, s.State, s.Sigs)
-			}
-			o.Subs = append(o.Subs, ss)
-		}
-		pre = append(pre, o)
+		pre = append(pre, w.callOut(c))
 	}
 	for ch := 0; ch < w.n; ch++ {
-		if w.adj[ch] == nil {
+		if w.adj[ch] == nil || w.gated[ch] {
 			continue
 		}
 	drain:
@@ -546,25 +644,169 @@ func (w *world) exec(e event) []output {
 					w.adj[ch] = nil
 					break drain
 				}
-				o := output{Kind: oRelay, Ch: ch, V: ae.Version()}
-				switch ae.(type) {
-				case *channel.RegisteredEvent:
-					o.EK = evRegistered
-				case *channel.ProgressedEvent:
-					o.EK = evProgressed
-				default:
-					o.EK = evConcluded
-				}
-				if ae.ID() != w.ids[ch] {
-					o.Ch = junkID
-				}
-				pre = append(pre, o)
+				pre = append(pre, w.relayOut(ch, ae))
 			default:
 				break drain
 			}
 		}
 	}
 	return append(pre, outs...)
+}
+
+// burstGrace bounds how long the harness lets the backlog of a slow reader build up before the reader
+// resumes. On the pristine tree the watcher blocks in publish once the client's buffer is full, so the
+// "everything handled" condition cannot come true and the grace period runs out; it only decides how
+// much backlog there is when the reader resumes, never what the right observation is.
+const burstGrace = 120 * time.Millisecond
+
+// execBurst: the client of channel `gate` does not read its event stream while the events of seg that
+// belong to gate are fed to the scripted subscription back to back (a feeder goroutine hands them over
+// as fast as the watcher takes them; it simply blocks while the watcher blocks). The other events of seg
+// (side events, of channels that are read normally) are executed meanwhile. Then the reader resumes and
+// reads until every event of the burst has been handled. Register calls are attributed by the tag of
+// the event the handler was working on, relayed events in order of the stream.
+func (w *world) execBurst(seg []event, gate int) [][]output {
+	outs := make([][]output, len(seg))
+	s := w.sub[gate]
+	if s == nil || w.adj[gate] == nil {
+		for i, e := range seg {
+			outs[i] = w.exec(e)
+			if w.stuck != "" {
+				return outs
+			}
+		}
+		return outs
+	}
+	var idxs []int
+	hasReg := false
+	for i, e := range seg {
+		if e.Ch == gate && (e.K == evRegistered || e.K == evProgressed || e.K == evConcluded) {
+			idxs = append(idxs, i)
+			hasReg = hasReg || e.K == evRegistered
+		}
+	}
+	isGate := make(map[int]bool, len(idxs))
+	for _, i := range idxs {
+		isGate[i] = true
+	}
+	w.gated[gate] = true
+	if hasReg {
+		w.rs.mu.Lock()
+		w.rs.burst = s
+		w.rs.mu.Unlock()
+	}
+	done := make(chan struct{})
+	var fedAll atomic.Bool
+	go func() {
+		defer close(done)
+		for _, i := range idxs {
+			if !s.hand(w.mkEvent(seg[i]), i) {
+				return
+			}
+		}
+		fedAll.Store(true)
+	}()
+	finish := func() {
+		w.gated[gate] = false
+		w.rs.mu.Lock()
+		w.rs.burst = nil
+		w.rs.mu.Unlock()
+	}
+	for i, e := range seg {
+		if !isGate[i] {
+			outs[i] = w.exec(e)
+			if w.stuck != "" {
+				finish()
+				return outs
+			}
+		}
+	}
+	// let the backlog build up
+	feederDone := false
+	doneCh := done
+	grace := time.NewTimer(burstGrace)
+backlog:
+	for !(feederDone && s.isIdle()) {
+		select {
+		case <-s.changed:
+		case <-doneCh:
+			feederDone, doneCh = true, nil
+		case <-grace.C:
+			break backlog
+		}
+	}
+	grace.Stop()
+	// the reader resumes
+	stream := w.adj[gate].EventStream()
+	var rel []output
+	deadline := time.NewTimer(stuckAfter)
+	defer deadline.Stop()
+	closedStream := false
+resume:
+	for {
+		allHandled := feederDone && s.isIdle() // checked BEFORE the drain: then the drain sees every publish
+	drain:
+		for !closedStream {
+			select {
+			case ae, ok := <-stream:
+				if !ok {
+					closedStream = true
+					break drain
+				}
+				rel = append(rel, w.relayOut(gate, ae))
+			default:
+				break drain
+			}
+		}
+		if allHandled || closedStream {
+			break resume
+		}
+		select {
+		case ae, ok := <-stream:
+			if !ok {
+				closedStream = true
+			} else {
+				rel = append(rel, w.relayOut(gate, ae))
+			}
+		case <-s.changed:
+		case <-doneCh:
+			feederDone, doneCh = true, nil
+		case <-deadline.C:
+			w.stuck = fmt.Sprintf("burst of %d events for channel %d not handled after the reader resumed", len(idxs), gate)
+			finish()
+			return outs
+		}
+	}
+	if !feederDone || !fedAll.Load() {
+		w.stuck = fmt.Sprintf("burst for channel %d: not every event was taken", gate)
+	}
+	// attribution
+	w.rs.mu.Lock()
+	bcalls := w.rs.bcalls
+	w.rs.bcalls = nil
+	w.rs.mu.Unlock()
+	finish()
+	for _, c := range bcalls {
+		t := c.tag
+		if t < 0 || t >= len(seg) || !isGate[t] {
+			t = idxs[len(idxs)-1]
+		}
+		outs[t] = append(outs[t], w.callOut(c))
+	}
+	for _, c := range w.rs.takeCalls() { // no burst tagging (no registered event in the burst)
+		outs[idxs[len(idxs)-1]] = append(outs[idxs[len(idxs)-1]], w.callOut(c))
+	}
+	j := 0
+	for _, i := range idxs {
+		if j < len(rel) && rel[j].Ch == gate && rel[j].EK == seg[i].K && rel[j].V == seg[i].V {
+			outs[i] = append(outs[i], rel[j])
+			j++
+		}
+	}
+	for ; j < len(rel); j++ { // relayed events that match nothing in order: keep them visible
+		outs[idxs[len(idxs)-1]] = append(outs[idxs[len(idxs)-1]], rel[j])
+	}
+	return outs
 }
 
 // snapshot renders the watcher's bookkeeping (verif hook) as Coq terms, sorted by channel index.
@@ -1136,6 +1378,102 @@ func rewatchHistory(r *rand.Rand, maxLen int) *history {
 	return h
 }
 
+// burstHistory: a slow reader. The client of one channel of a family does not read its event stream
+// while 11..30 adjudicator events (mostly progressed with increasing versions, some registered, sometimes
+// a final concluded) are reported for it; other channels of the family are read normally meanwhile.
+// When the burst contains registered events the side events are progressed/concluded only (a registered
+// event of the family would wait for the family lock, which the blocked handler of the burst may hold).
+func burstHistory(r *rand.Rand) *history {
+	n := 5
+	g := newG(n, 0)
+	h := &history{class: "burst", n: n, pre: -1, seed: r.Int63()}
+	add := func(e event) {
+		g.apply(e)
+		h.evs = append(h.evs, e)
+	}
+	filler := func(k int) {
+		var last *event
+		for i := 0; i < k; i++ {
+			e := g.randomEvent(r, false, false, last)
+			if e.K == evStop || e.K == evStartLedger || e.K == evStartSub {
+				continue
+			}
+			add(e)
+			last = &h.evs[len(h.evs)-1]
+		}
+	}
+	subs := [][]int{{1}, {1, 2}, {2, 1}}[r.Intn(3)]
+	fam := append([]int{0}, subs...)
+	add(event{K: evStartLedger, Ch: 0, Tx: atx{Ver: 0, Tok: g.nextTok()}})
+	for _, c := range subs {
+		add(event{K: evStartSub, Ch: c, Parent: 0, Tx: atx{Ver: 0, Tok: g.nextTok()}})
+	}
+	add(event{K: evPublish, Ch: 0, Tx: atx{Ver: g.ver[0] + 1, Tok: g.nextTok(), Locked: subs}})
+	for _, c := range fam {
+		for k := r.Intn(3); k > 0; k-- {
+			tx := atx{Ver: g.ver[c] + 1, Tok: g.nextTok()}
+			if c == 0 {
+				tx.Locked = subs
+			}
+			add(event{K: evPublish, Ch: c, Tx: tx})
+		}
+	}
+	filler(r.Intn(4))
+	nb := 1
+	if r.Intn(5) == 0 {
+		nb = 2
+	}
+	for b := 1; b <= nb; b++ {
+		gate := fam[r.Intn(len(fam))]
+		var others []int
+		for _, c := range fam {
+			if c != gate {
+				others = append(others, c)
+			}
+		}
+		k := 11 + r.Intn(20)
+		withReg := r.Intn(10) < 7
+		v := g.ver[gate]
+		if r.Intn(2) == 0 {
+			v = 0
+		}
+		for i := 0; i < k; i++ {
+			e := event{K: evProgressed, Ch: gate, V: v, Burst: b, Gate: gate}
+			switch {
+			case i == k-1 && r.Intn(2) == 0:
+				e.K = evConcluded
+			case withReg && r.Intn(6) == 0:
+				e.K = evRegistered
+				if r.Intn(2) == 0 {
+					e.V = g.versionNear(r, gate)
+				}
+			}
+			add(e)
+			if r.Intn(3) != 0 {
+				v++
+			}
+			if len(others) > 0 && r.Intn(8) == 0 {
+				c := others[r.Intn(len(others))]
+				se := event{K: evProgressed, Ch: c, V: g.versionNear(r, c), Burst: b, Gate: gate}
+				switch x := r.Intn(4); {
+				case x == 0:
+					se.K = evConcluded
+				case x == 1 && !withReg:
+					se.K = evRegistered
+				}
+				add(se)
+			}
+		}
+		// afterwards the channel is read normally again: its relay bookkeeping must be as if nothing
+		// special had happened
+		for i := r.Intn(4); i > 0; i-- {
+			add(event{K: evRegistered, Ch: gate, V: g.versionNear(r, gate) + uint64(r.Intn(3))})
+		}
+		filler(r.Intn(4))
+	}
+	return h
+}
+
 // letters of the exhaustive alphabet: 1 ledger channel (0), 2 sub-channels (1, 2), versions 0..3.
 // A letter is resolved to a concrete event in the context of the generator state (next version).
 type letter struct {
@@ -1265,18 +1603,30 @@ func (h *history) runOnce(settle bool) observation {
 	w.settle = settle
 	o := newOracle(h.n)
 	ob := observation{nev: len(h.evs)}
-	for i, e := range h.evs {
-		outs := w.exec(e)
+	for i := 0; i < len(h.evs); {
+		j := i + 1
+		var segOuts [][]output
+		if b := h.evs[i].Burst; b > 0 {
+			for j < len(h.evs) && h.evs[j].Burst == b {
+				j++
+			}
+			segOuts = w.execBurst(h.evs[i:j], h.evs[i].Gate)
+		} else {
+			segOuts = [][]output{w.exec(h.evs[i])}
+		}
 		if w.stuck != "" {
-			ob.stuck = fmt.Sprintf("event %d (%s): %s", i, e.term(), w.stuck)
+			ob.stuck = fmt.Sprintf("event %d (%s): %s", i, h.evs[i].term(), w.stuck)
 			ob.nev = i
 			return ob
 		}
-		ob.outs = append(ob.outs, outs)
-		for _, c := range o.check(e, outs) {
-			ob.bad = append(ob.bad, c)
-			ob.badAt = append(ob.badAt, i)
+		for k, outs := range segOuts {
+			ob.outs = append(ob.outs, outs)
+			for _, c := range o.check(h.evs[i+k], outs) {
+				ob.bad = append(ob.bad, c)
+				ob.badAt = append(ob.badAt, i+k)
+			}
 		}
+		i = j
 	}
 	ob.snap = w.snapshot()
 	w.cleanup()
@@ -1369,6 +1719,9 @@ func (h *history) replay() interface{} {
 			o = " -> " + hx.ListOf(h.outs[i], func(o output) string { return o.term() })
 		}
 		evs[i] = e.term() + o
+		if e.Burst > 0 {
+			evs[i] = fmt.Sprintf("[client of %d not reading, segment %d] ", e.Gate, e.Burst) + evs[i]
+		}
 	}
 	return map[string]interface{}{"class": h.class, "events_with_observed_outputs": evs}
 }
@@ -1507,28 +1860,14 @@ func concRun(seed int64) (class string, bad []complaint, descr []string) {
 			defer wg.Done()
 			<-start
 			s := w.sub[ch]
-			id := w.ids[ch]
 			for _, e := range scripts[ch] {
-				var ae channel.AdjudicatorEvent
-				switch e.K {
-				case evRegistered:
-					ae = channel.NewRegisteredEvent(id, &channel.ElapsedTimeout{}, e.V, nil, nil)
-				case evProgressed:
-					ae = channel.NewProgressedEvent(id, &channel.ElapsedTimeout{}, &channel.State{ID: id, Version: e.V}, 0)
-				default:
-					ae = channel.NewConcludedEvent(id, &channel.ElapsedTimeout{}, e.V)
-				}
-				select {
-				case s.ev <- ae:
-				case <-time.After(stuckAfter):
+				if !s.hand(w.mkEvent(e), -1) {
 					mu.Lock()
 					say("local.Watcher", "stuck", "event for channel %d not taken", ch)
 					mu.Unlock()
 					return
 				}
-				select {
-				case <-s.idle:
-				case <-time.After(stuckAfter):
+				if !s.awaitIdle() {
 					mu.Lock()
 					say("local.Watcher", "stuck", "event for channel %d not handled", ch)
 					mu.Unlock()
@@ -1650,7 +1989,7 @@ func Run(seed int64, tier, out string) {
 	res := hx.NewResult("C05", seed, tier)
 	res.Rule = "histories of publish / registered / progressed / concluded / start / stop / register-fails events against the real local.Watcher: " +
 		"exhaustive words (quick: length 2 over 20 letters; thorough: length 3 over 20, length 4 over 10, length 5 over 6 letters; 1 ledger channel, 2 sub-channels, versions 0..3) after three set-up prefixes, random histories up to length 60 " +
-		"(5 channel ids, two families, re-watching, duplicate and foreign locked ids; classes: plain, bigver = versions offset by 2^40, nonmono = versions not increasing (correspondence only), multi = multi-ledger assets (oracle: arguments and relays only), rewatch = sub-channel archived, watched again, advanced, then disputes). " +
+		"(5 channel ids, two families, re-watching, duplicate and foreign locked ids; classes: plain, bigver = versions offset by 2^40, nonmono = versions not increasing (correspondence only), multi = multi-ledger assets (oracle: arguments and relays only), rewatch = sub-channel archived, watched again, advanced, then disputes, burst = slow reader: the client of one channel does not read its event stream while 11..30 events are reported for it, other channels of the family are read normally). " +
 		"plus concurrent runs (three reporters at once) with a schedule-independent oracle (tree registered exactly once, newest states, relays increasing). " +
 		"distinct = distinct (class, event sequence shape, observed outputs); trivial = histories without any Register call, relay or refusal"
 	var hs []*history
@@ -1667,6 +2006,9 @@ func Run(seed int64, tier, out string) {
 		for i := 0; i < 2000; i++ {
 			hs = append(hs, rewatchHistory(gen, 40))
 		}
+		for i := 0; i < 1000; i++ {
+			hs = append(hs, burstHistory(gen))
+		}
 		res.Exhaustive = true
 	} else {
 		for pi := range prefixes {
@@ -1675,8 +2017,11 @@ func Run(seed int64, tier, out string) {
 		for i := 0; i < 100; i++ {
 			hs = append(hs, randomHistory(gen, classes[i%5], 60))
 		}
-		for i := 0; i < 80; i++ {
+		for i := 0; i < 60; i++ {
 			hs = append(hs, rewatchHistory(gen, 30))
+		}
+		for i := 0; i < 36; i++ {
+			hs = append(hs, burstHistory(gen))
 		}
 	}
 	res.PerFile = 0
